@@ -417,6 +417,26 @@ def s6(ctx):
         ap = [c for c in e.calls if c.callee and c.callee.name == "apply_rewrites"]
         ok = bool(incs) and bool(ap) and e.must_pass(e.after(ap[0].bb), [ap[0].bb], set(incs))
         ctx.check(ok, "eqsat-every-round-counts", "every path from one apply_rewrites to the next passes the counter increment", "run_eqsat can start another round without counting the previous one", where_of(e))
+        # every round asks the three questions that end the loop: did anything change, is the iteration limit reached, is the time
+        # up.  Each test lies on every path from the rule application back to the next one (a round that is not stopped by the
+        # hook), with the parameter it is named after
+        if ap:
+            tests = {"saturated": [], "iteration-limit": [], "time-limit": []}
+            p_iter = [e.var_names.get(l) for l in range(1, e.argc + 1) if e.local_ty(l) == "usize"]
+            for sb in e.switch_blocks():
+                r = strip_role(e.role_of_operand(e.blocks[sb]["term"]["discr"]))
+                txt = role_str(r)
+                if role_mentions_call(r, "apply_rewrites") and not role_mentions_call(r, "elapsed"):
+                    tests["saturated"].append(sb)
+                elif isinstance(r, tuple) and r[0] == "bin" and r[1] in ("Ge", "Gt", "Le", "Lt"):
+                    if role_mentions_call(r, "elapsed"):
+                        tests["time-limit"].append(sb)
+                    elif any(role_mentions_param(r, p_) for p_ in p_iter if p_):
+                        tests["iteration-limit"].append(sb)
+            for what, sbs in tests.items():
+                okt = bool(sbs) and e.must_pass(e.after(ap[0].bb), [ap[0].bb], set(sbs))
+                ctx.check(okt, "eqsat-asks-every-round:" + what, "every round of run_eqsat that goes on to another one has asked the `%s` question" % what,
+                          "run_eqsat can go from one rule application to the next without the `%s` test: the loop no longer ends when it should (%s)" % (what, {"saturated": "it keeps running although nothing changes", "iteration-limit": "the configured iteration bound is not honoured", "time-limit": "the configured time limit is not honoured"}[what]), where_of(e))
 
 
 RULES.append(s6)
